@@ -16,7 +16,7 @@ type node struct {
 
 func primary(n *node) bool {
 	switch n.K {
-	case "probe", "var", "glob", "rec", "mem", "idx", "optmem", "hcall", "gdef":
+	case "probe", "var", "glob", "rec", "mem", "idx", "optmem", "hcall", "gdef", "tpl", "cconst":
 		return true
 	case "lit", "comma":
 		return true // Val.JS parenthesises negative numbers itself; a comma expression is rendered in parentheses
@@ -34,10 +34,18 @@ func operand(n *node) string {
 // base of a member expression: literals need parentheses (1.k is a syntax error)
 func memberBase(n *node) string {
 	switch n.K {
-	case "probe", "var", "glob", "rec", "mem", "idx", "hcall", "gdef":
+	case "probe", "var", "glob", "rec", "mem", "idx", "hcall", "gdef", "cconst":
 		return expr(n)
 	}
 	return "(" + expr(n) + ")"
+}
+
+// argument of a call: `...[e]` cannot be parenthesised
+func argument(n *node) string {
+	if n.K == "sprd" {
+		return "...[" + expr(&n.A[0]) + "]"
+	}
+	return operand(n)
 }
 
 func expr(n *node) string {
@@ -47,16 +55,18 @@ func expr(n *node) string {
 	case "probe":
 		args := []string{fmt.Sprint(n.N)}
 		for i := range n.A {
-			args = append(args, operand(&n.A[i]))
+			args = append(args, argument(&n.A[i]))
 		}
 		return "p(" + strings.Join(args, ", ") + ")"
 	case "hcall":
 		args := []string{}
 		for i := range n.A {
-			args = append(args, operand(&n.A[i]))
+			args = append(args, argument(&n.A[i]))
 		}
 		return n.Op + "(" + strings.Join(args, ", ") + ")"
-	case "var", "glob", "rec", "gdef":
+	case "tpl":
+		return "`" + n.Op + "${" + expr(&n.A[0]) + "}`"
+	case "var", "glob", "rec", "gdef", "cconst":
 		return n.Op
 	case "un":
 		return n.Op + " " + operand(&n.A[0])
@@ -262,6 +272,8 @@ func (o *outcome) canonical() string {
 			parts = append(parts, e.E+"("+strings.Join(args, ",")+")")
 		case "valueOf":
 			parts = append(parts, fmt.Sprintf("valueOf#%d", e.I))
+		case "toString":
+			parts = append(parts, fmt.Sprintf("toString#%d", e.I))
 		case "get":
 			parts = append(parts, "get:"+keyString(e.K))
 		case "del":
